@@ -103,6 +103,8 @@ struct ZEx<const N: usize> {
     cur_op: Op,
     allocs: u32,
     panicked: bool,
+    /// elements leaked by a forgotten drain (allowed by C10)
+    leaked: u64,
 }
 
 fn run_n<const N: usize>(script: &Script, keep: bool) -> Outcome {
@@ -120,6 +122,7 @@ fn run_n<const N: usize>(script: &Script, keep: bool) -> Outcome {
         cur_op: Op::New,
         allocs: 0,
         panicked: false,
+        leaked: 0,
     };
     for (i, st) in script.steps.iter().enumerate() {
         let r = std::panic::catch_unwind(std::panic::AssertUnwindSafe(|| ex.step(i, st)));
@@ -151,7 +154,7 @@ fn run_n<const N: usize>(script: &Script, keep: bool) -> Outcome {
         }
         ex.hand.clear();
         let (c, d) = (CREATED.with(|c| c.get()), DESTROYED.with(|c| c.get()));
-        if c != d && ex.fail.is_none() {
+        if c != d + ex.leaked && ex.fail.is_none() {
             ex.cur = script.steps.len();
             ex.fail(cls::ZST, format!("after dropping everything: {c} elements created, {d} destructor runs"));
         }
@@ -326,6 +329,7 @@ impl<const N: usize> ZEx<N> {
                     let res = rs.resolve(len);
                     let sel = res.map(|(a, c)| c - a).unwrap_or(0);
                     let word = &st.word;
+                    let forget = op == Op::Drain && st.c % 2 == 1;
                     let r = self.call(res.is_err(), || -> (usize, usize, Vec<Zst>) {
                         // returns (len reported at the start, items yielded, drained items)
                         macro_rules! walk {
@@ -351,6 +355,9 @@ impl<const N: usize> ZEx<N> {
                                 if l0 - y != l1 {
                                     y = usize::MAX;
                                 }
+                                if forget {
+                                    std::mem::forget(it);
+                                }
                                 (l0, y, kept)
                             }};
                         }
@@ -367,7 +374,22 @@ impl<const N: usize> ZEx<N> {
                             self.fail(cls::ZST, format!("{} over {} selected elements: len() {l0}, yielded {y} (expected {want_y})", op.name(), sel));
                         }
                         self.hand.extend(kept);
-                        if op == Op::Drain {
+                        if op == Op::Drain && forget {
+                            // leaked drain (C10): the buffer may have lost anything, but it must not
+                            // claim more elements than still exist
+                            self.stats.forgets += 1;
+                            let obs = b.len();
+                            self.len[x] = obs;
+                            let live = CREATED.with(|c| c.get()) - DESTROYED.with(|c| c.get()) - self.leaked;
+                            let claimed = (self.len[0] + self.len[1] + self.hand.len()) as u64 + if x == 0 { 0 } else { 0 };
+                            let other = self.len[1 - x] as u64;
+                            let _ = other;
+                            if claimed > live {
+                                self.fail(cls::FORGET | cls::ZST, format!("after leaking the drain the buffer holds {obs} elements and the caller {}, but only {live} elements exist (some will be destroyed twice)", self.hand.len()));
+                            } else {
+                                self.leaked += live - claimed;
+                            }
+                        } else if op == Op::Drain {
                             self.len[x] = len - sel;
                         }
                     }
@@ -524,7 +546,7 @@ impl<const N: usize> ZEx<N> {
         if self.fail.is_none() {
             let (c, d) = (CREATED.with(|c| c.get()), DESTROYED.with(|c| c.get()));
             let live = (self.len[0] + self.len[1] + self.hand.len()) as u64;
-            if c - d != live {
+            if c - d - self.leaked != live {
                 self.fail(cls::ZST, format!("{c} elements created, {d} destructor runs, but {live} elements are in the buffers or with the caller"));
             }
         }
@@ -547,12 +569,17 @@ const ZOPS: &[Op] = &[
 ];
 
 pub fn gen_zst(seed: u64, run: u64) -> Script {
+    gen_zst_for(seed, run, false)
+}
+
+/// `forget_focus`: every run leaks a drain (C10 for zero-sized elements)
+pub fn gen_zst_for(seed: u64, run: u64, forget_focus: bool) -> Script {
     let mut rng = Rng::new(mix(&[seed, 3, run]));
     // stratum: capacity × front position class × initial length × focus op
     let nidx = (run % ZST_NS.len() as u64) as usize;
     let pos = ((run / ZST_NS.len() as u64) % 7) as usize; // 0: start 0; 1-3: start N-1..N-3; 4-6: start 1..3
     let s0 = ((run / 70) % 5) as usize;
-    let focus = ZOPS[((run / 350) % ZOPS.len() as u64) as usize];
+    let focus = if forget_focus { Op::Drain } else { ZOPS[((run / 350) % ZOPS.len() as u64) as usize] };
     let n = ZST_NS[nidx];
     let mut steps = Vec::new();
     let mut len = [0usize; 2];
@@ -577,7 +604,7 @@ pub fn gen_zst(seed: u64, run: u64) -> Script {
     }
     let tail = *rng.pick(&[0usize, 1, 2, 3, 5, 8, 12, 20]);
     for t in 0..=tail {
-        let op = if t == 0 { focus } else { *rng.pick(ZOPS) };
+        let op = if t == 0 { focus } else if forget_focus && rng.below(3) == 0 { Op::Drain } else { *rng.pick(ZOPS) };
         let x = if t == 0 { 0 } else { (rng.below(4) == 0) as u8 };
         let l = len[x as usize];
         let mut st = Step::new(op).buf(x);
@@ -598,6 +625,9 @@ pub fn gen_zst(seed: u64, run: u64) -> Script {
             Op::ExtendFromSlice | Op::Extend | Op::FromArray => st.vals = vec![0; rng.below(5) as usize],
             Op::Drain | Op::Range | Op::RangeMut | Op::Iter | Op::IterMut | Op::IntoIter => {
                 st.rs = crate::gen::range_arg(&mut rng, l, n.min(1 << 20), 15);
+                if op == Op::Drain && (rng.below(4) == 0 || (forget_focus && (t == 0 || rng.below(2) == 0))) {
+                    st.c = 1;
+                }
                 let wl = rng.below(l as u64 + 3) as usize;
                 st.word = (0..wl).map(|_| if rng.below(2) == 0 { b'n' } else { b'b' }).collect();
             }
